@@ -189,9 +189,16 @@ func CheckC02(l *Lab, verifDir string) int {
 	inner := SignHS("HS256", "HS256", key, nil, payload)
 	add(c02Cand{Name: "nested JWS", Class: "serialisation", Cookie: SignHS("HS256", "HS256", key, map[string]any{"cty": "JWT"}, inner), Want: "reject"})
 	flat, _ := json.Marshal(map[string]any{"protected": segs[0], "payload": segs[1], "signature": segs[2]})
-	add(c02Cand{Name: "flattened JSON serialisation", Class: "serialisation", Cookie: string(flat), Want: ""})
+	add(c02Cand{Name: "flattened JSON serialisation", Class: "serialisation", Cookie: string(flat), Want: "reject"})
 	gen, _ := json.Marshal(map[string]any{"payload": segs[1], "signatures": []any{map[string]any{"protected": segs[0], "signature": segs[2]}}})
-	add(c02Cand{Name: "general JSON serialisation", Class: "serialisation", Cookie: string(gen), Want: ""})
+	add(c02Cand{Name: "general JSON serialisation", Class: "serialisation", Cookie: string(gen), Want: "reject"})
+	for i, ws := range []string{segs[0] + " ." + segs[1] + "." + segs[2], segs[0] + ".\t" + segs[1] + "." + segs[2], segs[0][:4] + " " + segs[0][4:] + "." + segs[1] + "." + segs[2], segs[0] + "." + segs[1] + "." + segs[2][:5] + "\n" + segs[2][5:]} {
+		want := "reject"
+		if strings.ContainsAny(ws, "\r\n") {
+			want = "" // Go's base64 decoding skips CR / LF: the segments decode to identical bytes (don't care)
+		}
+		add(c02Cand{Name: fmt.Sprintf("white space inside the token %d", i), Class: "serialisation", Cookie: ws, Want: want})
+	}
 	gen2, _ := json.Marshal(map[string]any{"payload": segs[1], "signatures": []any{map[string]any{"protected": segs[0], "signature": segs[2]},
 		map[string]any{"protected": b64u(hnone), "signature": ""}}})
 	add(c02Cand{Name: "general JSON serialisation with a second 'none' signature", Class: "serialisation", Cookie: string(gen2), Want: "reject"})
@@ -214,6 +221,16 @@ func CheckC02(l *Lab, verifDir string) int {
 	close(jobs)
 	wg.Wait()
 
+	// ---- identities whose IdP access token is long: the minted cookie is several KiB and is accepted
+	for _, n := range []int{1400} {
+		brl := NewBrowser(f.GW, "")
+		file, _, err := brl.Login(fmt.Sprintf("longat%d", n), "host="+host)
+		if err != nil {
+			rep.Inconclusive("mint with a long access token: " + err.Error())
+			continue
+		}
+		c02Present(rep, f, c02Cand{Name: fmt.Sprintf("fresh cookie of %d characters", len(file.Settings["gatewayaccesstoken"])), Class: "minted-long", Cookie: file.Settings["gatewayaccesstoken"], Want: "accept"})
+	}
 	// ---- history: what an earlier (valid) cookie check leaves behind must not complete a later
 	// cookie: bursts of valid presentations, then the right-key candidates that lack or change a claim
 	var rejects []c02Cand
